@@ -40,6 +40,7 @@ class C13Observer(SP.Observer):
         self.closed_by_replacement = 0
         self.closed_from_trash = 0
         self.checked_new = set()
+        self.checked_repl = set()
 
     def after_event(self, m, where):
         import cassandra.pool as P
@@ -87,7 +88,7 @@ class C13Observer(SP.Observer):
                 continue
             if c.orphaned_threshold_reached and c._requests:
                 self.crossed_with_live = True
-            if p.is_shutdown or p._is_replacing or not c.orphaned_threshold_reached:
+            if p.is_shutdown or m.replace_running() or not c.orphaned_threshold_reached:
                 continue
             if p._connection is None or p._connection is c:
                 continue
@@ -97,6 +98,20 @@ class C13Observer(SP.Observer):
                          "%s: replaced connection #%d has only orphaned streams left (in_flight=%d, orphans=%r, no "
                          "handler registered) but is still open" % (where, c.sim_id, c.in_flight,
                                                                      sorted(c.orphaned_request_ids)))
+        # --- enough timed-out streams => the next borrow starts a replacement
+        for f in m.futs.values():
+            i = f.start_info
+            if i is None or f.tag in self.checked_repl or f.actor is None or not f.actor.done:
+                continue
+            self.checked_repl.add(f.tag)
+            p, x = i["pool"], i["conn"]
+            if i["dead"] or i["replacing"] or i["orphans"] < i["thr"] or f.raised is not None:
+                continue
+            if not (m.replace_running() or p._connection is not x or p.is_shutdown or x.is_closed or x.is_defunct):
+                ctx.fail(["C13.no-replacement"],
+                         "%s: request tag=%s was started while connection #%d had %d orphaned streams (threshold %d) "
+                         "and no replacement was running, yet no replacement has been started" % (
+                             where, f.tag, x.sim_id, i["orphans"], i["thr"]))
         # --- new requests move to the fresh connection
         for f in m.futs.values():
             if f.tag in self.checked_new or f.pool_conn_at_start is None:
